@@ -175,20 +175,21 @@ for _I, _V in enumerate(betas):
     _REST = x - thresholds[_I + 1]
 return _T
 """
-    b = find(pfn.node, "_REST = __INIT\n" + LOOP)
-    rest = [n for n in pfn.body if b is not None and isinstance(n, ast.Assign) and unparse(n.targets[0]) == b['_REST']]
-    if b is None:
-        ctx.add('C17.R6', 'piecewise_function:segments', False, pfn, 'accumulation in piecewise_function changed', 'segments')
-        rest = []
+    b2 = find(pfn.node, "_REST = __A if __C else __B\n" + LOOP)
+    b1 = find(pfn.node, "_REST = __INIT\n" + LOOP) if b2 is None else None
+    if b1 is None and b2 is None:
+        ctx.shape('C17.R6', 'piecewise_function:segments', False, pfn, '', 'rest = <initial distance>; total = 0; for each beta: stop with beta_i * rest when the next threshold is open or beyond x, else add beta_i * (t_i+1 - t_i) and rest = x - t_i+1')
     else:
         ctx.add('C17.R6', 'piecewise_function:segments', True, pfn, 'full segments contribute beta_i (t_i+1 - t_i), the last reached one beta_i times the remaining distance', 'segments')
-    ctx.need(len(rest) == 1 or b is None, 'piecewise_function initialises the remaining distance once')
-    if rest:
-        rv = unparse(rest[0].value).replace(' ', '')
-        ok = rv in ('xifthresholds[0]isNoneelsex-thresholds[0]', 'x-thresholds[0]ifthresholds[0]isnotNoneelsex', 'x-(0ifthresholds[0]isNoneelsethresholds[0])')
-        if not ok and rv != 'x':
-            raise AnalysisError(f'C17.R6: initialisation of the remaining distance in piecewise_function not recognised: {rv}')
-        ctx.add('C17.R6', 'piecewise_function:first-segment', ok, (pfn.file, rest[0].lineno), 'the first segment is measured from the first threshold' if ok else 'rest = x: with a first threshold t0 != 0 the first segment is x instead of x - t0 (differs from piecewise_formula)', rv)
+        if b2 is not None:
+            c, a, bb = (unparse(b2[k][1]).replace(' ', '') for k in ('__C', '__A', '__B'))
+            ok = (c, a, bb) == ('thresholds[0]isNone', 'x', 'x-thresholds[0]')
+            rv = f'{a} if {c} else {bb}'
+        else:
+            rv = unparse(b1['__INIT'][1]).replace(' ', '')
+            ok = rv == 'x-(0ifthresholds[0]isNoneelsethresholds[0])'
+        ctx.add('C17.R6', 'piecewise_function:first-segment', ok, pfn, 'the first segment is measured from the first threshold' if ok
+                else f'the remaining distance starts at {rv}: with a first threshold t0 != 0 the first segment must be x - t0 (as in piecewise_formula)', rv)
 
     # segmentation twins
     S = prog.cls('segmentation', 'OneSegmentation')
@@ -224,24 +225,21 @@ return f"Beta('{_NAME}', {self.beta.initValue}, {_LB}, {_UB}, {self.beta.status}
     ok = body_is(sb.body, """
 _REF = Beta(name=self.beta.name, value=self.beta.initValue, lowerbound=self.beta.lb, upperbound=self.beta.ub, status=self.beta.status)
 _T = [_REF]
-_T += __COMP
+_T += [_E for _S in self.segmentations for _E in _S.list_of_expressions()]
 return bioMultSum(_T)
-""")
-    ok = ok is not None and m_node(_parse('[_E for _S in self.segmentations for _E in _S.list_of_expressions()]')[0].value, ok['__COMP'][1], {})
-    b = body_is(sc.body, """
-_RES = __DEFS
+""") is not None
+    ok = ok and body_is(sc.body, """
+_RES = '\\n'.join([_S.beta_code(_C, assignment=True) for _S in self.segmentations for _C in _S.mapping.values()])
 _RES += '\\n'
 _T = [self.beta_code()]
-_T += __COMP
+_T += [_E for _S in self.segmentations for _E in _S.list_of_code()]
 if len(_T) == 1:
     _RES += _T[0]
 else:
     _J = ', '.join(_T)
     _RES += f'{self.prefix}_{self.beta.name} = bioMultSum([{_J}])'
 return _RES
-""")
-    ok = ok and b is not None and m_node(_parse('[_E for _S in self.segmentations for _E in _S.list_of_code()]')[0].value, b['__COMP'][1], {})
-    ok = ok and m_node(_parse("'\\n'.join([_S.beta_code(_C, assignment=True) for _S in self.segmentations for _C in _S.mapping.values()])")[0].value, b['__DEFS'][1], {})
+""") is not None
     gb = G.methods['beta_code']
     ok = ok and (body_is(gb.body, """
 _N = f"'{self.beta.name}'"
